@@ -46,7 +46,7 @@ HEX = re.compile(r"(?:[0-9a-fA-F]{2})*\Z")
 def shards(tier, seed):
     if tier == "quick":
         return [{"n_sessions": 14, "n_pairs": 500, "edits": 40} for _ in range(16)]
-    return [{"n_sessions": 200, "n_pairs": 6000, "edits": 200} for _ in range(32)]
+    return [{"n_sessions": 90, "n_pairs": 6000, "edits": 120} for _ in range(32)]
 
 
 # ------------------------------------------------------------------ reference
